@@ -172,6 +172,10 @@ def main():
     import gen_c17_tables
     counts, miss = gen_c17_tables.generate(REPO)
     vals.update(counts)      # C17_STORE_CALL_SITES
+    # C10: the DialError variants and the arms of AddressStore::error_score -> coq/gen/DialErrors.v
+    import gen_c10_errors
+    counts, miss = gen_c10_errors.generate(REPO)
+    vals.update(counts)      # C10_DIAL_ERROR_LEAVES, C10_ERROR_SCORE_ARMS
     missing += list(miss)
     str_names = []
     for name, path, rx in STR_CONSTS:
